@@ -155,6 +155,15 @@ def _dist_geometry(geom, dim):
     raise ValueError(geom)
 
 
+def pin_gmrf_constant(d):
+    """Rank-deficient (neumann/periodic) GMRFs take their log-determinant from ARPACK, whose start vector comes from
+    a process-global Fortran generator: the reported normalising constant depends on the process history and is
+    sometimes NaN.  C03 concerns derivatives only, so the additive constant is pinned (logd keeps its x-dependence)."""
+    if hasattr(d, "_logdet"):
+        d._logdet = 0.0
+    return d
+
+
 def _mrf_geom(pd, N):
     import cuqi
     return N if pd == "1d" else cuqi.geometry.Image2D((N, N))
@@ -177,7 +186,7 @@ def gen_gmrf(sizes, k, npts):
                         def build(pd=pd, N=N, bc=bc, order=order, m=m, pf=pf, facets=facets, pts=pts, dim=dim):
                             prec = posscalar(k) if pf == "float" else np.array([posscalar(k)])
                             mean = m if isinstance(m, np.ndarray) else m * np.ones(dim)
-                            d = cuqi.distribution.GMRF(mean, prec, bc_type=bc, order=order, geometry=_mrf_geom(pd, N))
+                            d = pin_gmrf_constant(cuqi.distribution.GMRF(mean, prec, bc_type=bc, order=order, geometry=_mrf_geom(pd, N)))
                             Dr = refs.fd_ref(N, bc, order, 1 if pd == "1d" else 2)
                             Pr = posscalar(k) * (Dr.T @ Dr)
                             ref_logd = lambda x: -0.5 * float((np.asarray(x, float) - mean) @ Pr @ (np.asarray(x, float) - mean))
